@@ -56,6 +56,7 @@ func checkC19(p *ana.Prog, r *ana.Result) {
 		return
 	}
 	fname := ana.FuncName(fn)
+	c19Weight(p, r, fn)
 	// who may step / adjust in the package
 	nStep, nAdj := 0, 0
 	for _, f := range p.AllFuncs {
